@@ -1,3 +1,4 @@
+pub mod certify;
 pub mod delaunay;
 pub mod levels;
 pub mod snap;
